@@ -251,13 +251,20 @@ def t_relabel(net, table, how):
 
 
 def t_relabel_all(net, how):
-    """every table relabelled at once (used as a pre-representation by C23)"""
+    """every table relabelled at once (used as a pre-representation by C23).  how == "skew": the gapped labels
+    2,5,8.. for the bus table and the tables at odd positions of RES_TABLES, 5,8,11.. for those at even positions, so
+    that the index sets of neighbouring tables (line / trafo / trafo3w ...) overlap WITHOUT being aligned: the same
+    label names the k-th row of one table and the (k+1)-th row of another."""
     n2 = copy.deepcopy(net)
     M = identity_map(net)
     for table in ["bus"] + RES_TABLES:
         if not len(net[table]):
             continue
-        lut = LUTS[how](list(net[table].index))
+        if how == "skew":
+            off = 1 if (table != "bus" and RES_TABLES.index(table) % 2 == 0) else 0
+            lut = {int(i): 3 * (k + off) + 2 for k, i in enumerate(net[table].index)}
+        else:
+            lut = LUTS[how](list(net[table].index))
         relabel_table(n2, table, lut)
         if table == "bus":
             M["bus"] = {b: [lut[b]] for b in M["bus"]}
@@ -428,7 +435,8 @@ def t_add(net, what, bus):
     return n2, identity_map(net)
 
 
-ADD_THOROUGH_ONLY = ("oos_sgen", "oos_storage", "zero_storage", "zero_sgen")
+ADD_THOROUGH_ONLY = ("oos_sgen", "oos_storage", "zero_storage", "zero_sgen", "oos_load", "oos_shunt", "oos_ward",
+                     "oos_motor", "oos_dcline", "zero_asym_load")     # PQ-like duplicates of kinds kept in quick
 NEED_OTHER = ("oos_line", "oos_impedance", "oos_dcline", "open_bb_switch")
 ADD_CORE = ["oos_gen", "oos_ext_grid", "oos_xward", "oos_bus", "zero_load", "zero_shunt", "open_bb_switch"]
 ADD_KINDS = ["oos_load", "oos_sgen", "oos_gen", "oos_ext_grid", "oos_shunt", "oos_ward", "oos_xward", "oos_storage",
@@ -479,6 +487,68 @@ def t_splitbus(net, bus, move, direction):
     return n2, M
 
 
+def t_chain(net, bus, L, orient, order, place, pos0=0):
+    """bus -> L buses coupled IN A ROW by L-1 closed z=0 bus-bus switches.  The original bus sits at position pos0 of the
+    row, the new buses (labels max+1..) fill the other positions in ascending order.  orient[j] = 0: switch j is
+    (bus=node j, element=node j+1), 1: reversed; `order` is the creation order of the switches (a permutation);
+    place = "spread": terminal k of the bus goes to row position (L-1-k) mod L, "ends": bus elements to the far end,
+    branches stay, "stay": nothing moves."""
+    n2 = copy.deepcopy(net)
+    first = int(net.bus.index.max()) + 1
+    new = list(range(first, first + L - 1))
+    row = net.bus.loc[[bus]].copy()
+    dt = n2.bus.dtypes
+    rows = []
+    for nb in new:
+        r = row.copy()
+        r.index = pd.Index([nb], dtype=np.int64)
+        r["name"] = "chain_of_%s" % bus
+        rows.append(r)
+    n2.bus = pd.concat([n2.bus] + rows)
+    for c in n2.bus.columns:
+        if n2.bus[c].dtype != dt[c]:
+            try:
+                n2.bus[c] = n2.bus[c].astype(dt[c])
+            except Exception:
+                pass
+    nodes = list(new)
+    nodes.insert(pos0, int(bus))
+    terms = terminals(net, bus)
+    for k, (t, i, c) in enumerate(terms):
+        if place == "spread":
+            tgt = nodes[(L - 1 - k) % L]
+        elif place == "ends":
+            tgt = nodes[L - 1] if t not in ("line", "trafo", "trafo3w", "impedance", "dcline") else int(bus)
+        else:
+            tgt = int(bus)
+        if tgt == int(bus):
+            continue
+        n2[t].at[i, c] = tgt
+        if t in SWITCH_ET and len(n2.switch):
+            m = (n2.switch.et == SWITCH_ET[t]) & (n2.switch.element == i) & (n2.switch.bus == bus)
+            n2.switch.loc[m, "bus"] = tgt
+    for j in order:
+        a, b = nodes[j], nodes[j + 1]
+        if orient[j]:
+            a, b = b, a
+        pp.create_switch(n2, a, b, "b", closed=True, z_ohm=0.)
+    M = identity_map(net)
+    M["bus"][int(bus)] = [int(x) for x in nodes]
+    return n2, M
+
+
+def enum_chains(net, bus, L, places=("spread",), pos0s=(0,)):
+    """every orientation (2^(L-1)) x every creation order ((L-1)!) of the coupling switches"""
+    import itertools
+    T = []
+    for place in places:
+        for pos0 in pos0s:
+            for orient in itertools.product((0, 1), repeat=L - 1):
+                for order in itertools.permutations(range(L - 1)):
+                    T.append(["chain", int(bus), L, list(orient), list(order), place, pos0])
+    return T
+
+
 # ----------------------------------------------------------------------------------------------
 # enumeration of (transformation, target) for one net
 # ----------------------------------------------------------------------------------------------
@@ -495,7 +565,8 @@ def has_zip(net):
 def enum_transforms(net, tier, hot):
     """Deterministic list of [descriptor, level] of every applicable (transformation, target).
     level 0: run under every option set of the case; in the quick tier level 1 = only under the first option set
-    (ac), level 2 = under the first two (ac, ac without numba: the numpy bus-fusing path)."""
+    (ac), level 2 = under the first two (ac, ac without numba: the numpy bus-fusing path), 3 = first and last (ac, dc),
+    4 = thorough tier only."""
     quick = tier == "quick"
     T = [[["sn"], 0]]
     for tab in ["bus"] + RES_TABLES:
@@ -507,7 +578,10 @@ def enum_transforms(net, tier, hot):
         for how in hows:
             if how == "perm" and n < 2:
                 continue
-            T.append([["relabel", tab, how], lvl if (how != "hole0" or tab == "bus") else 1])
+            if how == "hole0" and tab != "bus":
+                T.append([["relabel", tab, how], 1 if tab in ("switch", "xward", "trafo3w", "trafo", "line") else 4])
+            else:
+                T.append([["relabel", tab, how], lvl])
         if n >= 2:
             T.append([["rowperm", tab, "rev"], lvl])
             if n >= 3 and not quick:
@@ -547,7 +621,7 @@ def enum_transforms(net, tier, hot):
             simple = len(sel) == 0 or len(sel) == n
             da, db = ("old_new", "new_old") if k % 2 == 0 else ("new_old", "old_new")
             T.append([["splitbus", int(b), sel, da], 0 if simple else 2])
-            T.append([["splitbus", int(b), sel, db], 1])
+            T.append([["splitbus", int(b), sel, db], 1 if simple else 4])   # 4: thorough only (traded for the chains)
     return T
 
 
@@ -575,6 +649,8 @@ def level_applies(level, opt, case_opts, tier):
     if tier != "quick" or level == 0:
         return True
     k = case_opts.index(opt)
+    if level == 4:
+        return False
     if level == 1:
         return k == 0
     if level == 2:
@@ -604,6 +680,8 @@ def apply_transform(net, tf):
         return t_add(net, tf[1], tf[2])
     if k == "splitbus":
         return t_splitbus(net, tf[1], [tuple(x) for x in tf[2]], tf[3])
+    if k == "chain":
+        return t_chain(net, tf[1], tf[2], tf[3], tf[4], tf[5], tf[6] if len(tf) > 6 else 0)
     if k == "id":
         return copy.deepcopy(net), identity_map(net)
     if k == "rowperm_all":
